@@ -1,0 +1,28 @@
+//go:build verif
+
+package manifest
+
+import (
+	"bufio"
+	"bytes"
+)
+
+// VerifEncodeEdit returns the bytes writeEdit appends to the manifest file for
+// one edit (4-byte length prefix + payload).
+func VerifEncodeEdit(edit Edit) ([]byte, error) {
+	var buf bytes.Buffer
+	if err := writeEdit(&buf, edit); err != nil {
+		return nil, err
+	}
+	return buf.Bytes(), nil
+}
+
+// VerifReadEdit decodes one length-prefixed edit the way manifest replay does.
+func VerifReadEdit(data []byte) (Edit, error) {
+	return readEdit(bufio.NewReader(bytes.NewReader(data)))
+}
+
+// VerifDecodeEdit decodes an edit payload (without the length prefix).
+func VerifDecodeEdit(payload []byte) (Edit, error) {
+	return decodeEdit(payload)
+}
